@@ -71,6 +71,8 @@ const utf8Decl = `(declare-fun utf8.rune (Str Int) Int)
 (declare-fun utf8.width (Str Int) Int)
 (assert (forall ((s Str) (p Int)) (! (=> (and (<= 0 p) (< p (slen s))) (and (<= 1 (utf8.width s p)) (<= (utf8.width s p) 4) (<= (+ p (utf8.width s p)) (slen s)) (<= 0 (utf8.rune s p)) (<= (utf8.rune s p) 1114111) (ite (< (sat s p) 128) (and (= (utf8.width s p) 1) (= (utf8.rune s p) (sat s p))) (>= (utf8.rune s p) 128)))) :pattern ((utf8.width s p)))))`
 
+func sel2(a, i Term) Term { return sel(a, i) }
+
 func (env *Env) sub() *Env {
 	n := *env
 	n.vars = make(map[string]SV, len(env.vars))
@@ -277,6 +279,46 @@ func (env *Env) elab(e Expr) SV {
 									return env.goSV(app("fptr", base.t, num(int64(i))), types.NewPointer(st.Field(i).Type()))
 								}
 							}
+						}
+					}
+				}
+			}
+			// &p.f with f promoted through embedded structs (values: interior pointers; pointers: loaded)
+			if sel, ok := x.X.(*ESel); ok {
+				base := env.elab(sel.X)
+				if base.ty != nil {
+					if pt, ok := base.ty.Underlying().(*types.Pointer); ok {
+						obj, path, _ := types.LookupFieldOrMethod(pt, true, env.pkgTypes(), sel.Name)
+						if obj == nil {
+							if n := namedOf(pt.Elem()); n != nil && n.Obj().Pkg() != nil {
+								obj, path, _ = types.LookupFieldOrMethod(pt, true, n.Obj().Pkg(), sel.Name)
+							}
+						}
+						if _, isVar := obj.(*types.Var); isVar && len(path) > 1 {
+							cur := base.t
+							curT := pt.Elem()
+							okPath := true
+							for k, idx := range path {
+								st, isStruct := curT.Underlying().(*types.Struct)
+								if !isStruct {
+									okPath = false
+									break
+								}
+								addr := app("fptr", cur, num(int64(idx)))
+								ft := st.Field(idx).Type()
+								if k == len(path)-1 {
+									return env.goSV(addr, types.NewPointer(ft))
+								}
+								if fpt, isPtr := ft.Underlying().(*types.Pointer); isPtr {
+									h := env.tr.getState(env.st, env.tr.structHeap(curT, idx))
+									cur = sel2(h, cur)
+									curT = fpt.Elem()
+								} else {
+									cur = addr
+									curT = ft
+								}
+							}
+							_ = okPath
 						}
 					}
 				}
